@@ -365,6 +365,8 @@ def main():
     for pid, c in props.items():
         if isinstance(c, dict) and pid != prop:
             for f in c.get('finders', []):
+                if f.get('share', True) is False:
+                    continue
                 if f['name'] not in seen:
                     seen.add(f['name'])
                     shared.append(f)
